@@ -223,6 +223,17 @@ fn collections(ctx: &mut Ctx) {
                 other => bad(ctx, "Vec<String>", "wrong-kind-not-a-type-error-with-the-value", format!("{other:?}"), v),
             }
         }
+        if let Value::Map(m) = v {
+            // a map of values comes back entry for entry
+            match got(guard(|| BTreeMap::<String, Value>::try_from(v.clone()))) {
+                Got::Ok(b) if b.len() == m.len() && b.iter().zip(m.iter()).all(|((k1, x), (k2, y))| k1 == k2 && same(x, y)) => ctx.hit("roundtrip:BTreeMap<String,Value>"),
+                other => bad(ctx, "BTreeMap<String,Value>", "roundtrip", format!("{other:?}"), v),
+            }
+            match got(guard(|| HashMap::<String, Value>::try_from(v.clone()))) {
+                Got::Ok(h) if h.len() == m.len() && m.iter().all(|(k, y)| h.get(k).map(|x| same(x, y)).unwrap_or(false)) => ctx.hit("roundtrip:HashMap<String,Value>"),
+                other => bad(ctx, "HashMap<String,Value>", "roundtrip", format!("{other:?}"), v),
+            }
+        }
         if !matches!(v, Value::Map(_)) {
             match got(guard(|| BTreeMap::<String, Value>::try_from(v.clone()))) {
                 Got::WrongType(o) if same(&o, v) => ctx.hit("wrong-kind:BTreeMap"),
@@ -235,6 +246,10 @@ fn collections(ctx: &mut Ctx) {
             match got(guard(|| HashMap::<String, i64>::try_from(v.clone()))) {
                 Got::WrongType(o) if same(&o, v) => {}
                 other => bad(ctx, "HashMap<String,i64>", "wrong-kind-not-a-type-error-with-the-value", format!("{other:?}"), v),
+            }
+            match got(guard(|| BTreeMap::<String, i64>::try_from(v.clone()))) {
+                Got::WrongType(o) if same(&o, v) => {}
+                other => bad(ctx, "BTreeMap<String,i64>", "wrong-kind-not-a-type-error-with-the-value", format!("{other:?}"), v),
             }
         }
     }
